@@ -294,3 +294,29 @@ func VerifPrimaryChain(k int) (*Store, *DB, []ltx.Pos) {
 	}
 	return w.store, db, chain
 }
+
+// verifImageBig returns n pages: page 1 and the listed pages have symbolic
+// content, the others a concrete per-page pattern (so that images crossing the
+// 256-page checksum blocks stay cheap). Page 1 carries a valid header.
+func verifImageBig(tag string, n int, wal bool, symbolic ...int) [][]byte {
+	img := make([][]byte, n)
+	sym := map[int]bool{1: true}
+	for _, p := range symbolic {
+		sym[p] = true
+	}
+	for i := range img {
+		if sym[i+1] {
+			img[i] = rt.Bytes(tag, verifP)
+			continue
+		}
+		pg := make([]byte, verifP)
+		for j := range pg {
+			pg[j] = byte(i*7 + j)
+		}
+		img[i] = pg
+	}
+	if n > 0 {
+		verifHeaderPage(img[0], uint32(n), wal)
+	}
+	return img
+}
